@@ -3,6 +3,10 @@ package ordabs
 import (
 	"fmt"
 	"go/ast"
+	"math"
+	"strconv"
+	"strings"
+	"unicode/utf8"
 	"go/types"
 	"sort"
 )
@@ -209,5 +213,120 @@ func (in *Interp) InstallBuilderStubs() {
 			return []Value{s}, nil
 		}
 		return []Value{""}, nil
+	}
+}
+
+// InstallStringStubs models the parts of strings / unicode/utf8 / strconv the analysed code uses, by the host's own implementation.
+func (in *Interp) InstallStringStubs() {
+	str := func(v Value) string { s, _ := v.(string); return s }
+	in.Stubs["strings.HasPrefix"] = func(in *Interp, _ Value, a []Value) ([]Value, error) {
+		return []Value{strings.HasPrefix(str(a[0]), str(a[1]))}, nil
+	}
+	in.Stubs["strings.HasSuffix"] = func(in *Interp, _ Value, a []Value) ([]Value, error) {
+		return []Value{strings.HasSuffix(str(a[0]), str(a[1]))}, nil
+	}
+	in.Stubs["strings.Split"] = func(in *Interp, _ Value, a []Value) ([]Value, error) {
+		var out []Value
+		for _, p := range strings.Split(a[0].(string), a[1].(string)) {
+			out = append(out, p)
+		}
+		return []Value{&Slice{Elems: &out}}, nil
+	}
+	in.Stubs["strings.Contains"] = func(in *Interp, _ Value, a []Value) ([]Value, error) {
+		return []Value{strings.Contains(str(a[0]), str(a[1]))}, nil
+	}
+	in.Stubs["strings.ContainsRune"] = func(in *Interp, _ Value, a []Value) ([]Value, error) {
+		r, _ := a[1].(int64)
+		return []Value{strings.ContainsRune(str(a[0]), rune(r))}, nil
+	}
+	in.Stubs["strings.Index"] = func(in *Interp, _ Value, a []Value) ([]Value, error) {
+		return []Value{int64(strings.Index(str(a[0]), str(a[1])))}, nil
+	}
+	in.Stubs["strings.LastIndex"] = func(in *Interp, _ Value, a []Value) ([]Value, error) {
+		return []Value{int64(strings.LastIndex(str(a[0]), str(a[1])))}, nil
+	}
+	in.Stubs["strings.NewReplacer"] = func(in *Interp, _ Value, a []Value) ([]Value, error) {
+		var pairs []Value
+		if len(a) == 1 {
+			if sl, ok := a[0].(*Slice); ok && sl != nil {
+				pairs = *sl.Elems
+			}
+		} else {
+			pairs = a
+		}
+		return []Value{&Obj{Name: "replacer", Fields: map[string]Value{"pairs": &Slice{Elems: &pairs}}, T: "strings.Replacer"}}, nil
+	}
+	in.Stubs["strings.Replacer.Replace"] = func(in *Interp, recv Value, a []Value) ([]Value, error) {
+		o, _ := recv.(*Obj)
+		var oldnew []string
+		if o != nil {
+			if sl, _ := o.Fields["pairs"].(*Slice); sl != nil {
+				for _, p := range *sl.Elems {
+					oldnew = append(oldnew, str(p))
+				}
+			}
+		}
+		return []Value{strings.NewReplacer(oldnew...).Replace(str(a[0]))}, nil
+	}
+	in.Stubs["unicode/utf8.DecodeRuneInString"] = func(in *Interp, _ Value, a []Value) ([]Value, error) {
+		r, n := utf8.DecodeRuneInString(str(a[0]))
+		return []Value{int64(r), int64(n)}, nil
+	}
+	in.Stubs["unicode/utf8.EncodeRune"] = func(in *Interp, _ Value, a []Value) ([]Value, error) {
+		sl, _ := a[0].(*Slice)
+		r, _ := a[1].(int64)
+		var buf [utf8.UTFMax]byte
+		n := utf8.EncodeRune(buf[:], rune(r))
+		if sl != nil {
+			for i := 0; i < n && i < len(*sl.Elems); i++ {
+				(*sl.Elems)[i] = int64(buf[i])
+			}
+		}
+		return []Value{int64(n)}, nil
+	}
+	in.Stubs["strconv.FormatInt"] = func(in *Interp, _ Value, a []Value) ([]Value, error) {
+		n, _ := a[0].(int64)
+		b, _ := a[1].(int64)
+		return []Value{strconv.FormatInt(n, int(b))}, nil
+	}
+	in.Stubs["strings.Builder.WriteRune"] = func(in *Interp, recv Value, a []Value) ([]Value, error) {
+		r, _ := a[0].(int64)
+		return in.Stubs["strings.Builder.WriteString"](in, recv, []Value{string(rune(r))})
+	}
+	in.Stubs["strings.Builder.WriteByte"] = func(in *Interp, recv Value, a []Value) ([]Value, error) {
+		r, _ := a[0].(int64)
+		_, err := in.Stubs["strings.Builder.WriteString"](in, recv, []Value{string([]byte{byte(r)})})
+		return []Value{nil}, err
+	}
+}
+
+// InstallFloatStubs models math and strconv functions on float64 values by the host's implementation.
+func (in *Interp) InstallFloatStubs() {
+	fl := func(v Value) float64 { f, _ := v.(float64); return f }
+	in.Stubs["math.IsInf"] = func(in *Interp, _ Value, a []Value) ([]Value, error) {
+		s, _ := a[1].(int64)
+		return []Value{math.IsInf(fl(a[0]), int(s))}, nil
+	}
+	in.Stubs["math.IsNaN"] = func(in *Interp, _ Value, a []Value) ([]Value, error) {
+		return []Value{math.IsNaN(fl(a[0]))}, nil
+	}
+	in.Stubs["math.Float64bits"] = func(in *Interp, _ Value, a []Value) ([]Value, error) {
+		return []Value{int64(math.Float64bits(fl(a[0])))}, nil
+	}
+	in.Stubs["math.Float64frombits"] = func(in *Interp, _ Value, a []Value) ([]Value, error) {
+		n, _ := a[0].(int64)
+		return []Value{math.Float64frombits(uint64(n))}, nil
+	}
+	in.Stubs["math.Signbit"] = func(in *Interp, _ Value, a []Value) ([]Value, error) {
+		return []Value{math.Signbit(fl(a[0]))}, nil
+	}
+	in.Stubs["math.Trunc"] = func(in *Interp, _ Value, a []Value) ([]Value, error) {
+		return []Value{math.Trunc(fl(a[0]))}, nil
+	}
+	in.Stubs["strconv.FormatFloat"] = func(in *Interp, _ Value, a []Value) ([]Value, error) {
+		f, _ := a[1].(int64)
+		p, _ := a[2].(int64)
+		b, _ := a[3].(int64)
+		return []Value{strconv.FormatFloat(fl(a[0]), byte(f), int(p), int(b))}, nil
 	}
 }
